@@ -6,3 +6,4 @@ echo "== demo on unchanged /repo"; (cd /tmp && BIOSCRAPE_VERIF= PYTHONPATH=/repo
 echo "== demo on changed worktree"; (cd /tmp && PYTHONPATH=$wt timeout 900 /venv/bin/python $sd/demo.py > /tmp/confirm-$id-mut.log 2>&1); m=$?; echo "exit=$m"; tail -3 /tmp/confirm-$id-mut.log
 echo "== test suite on changed worktree"; (cd $wt && PYTHONPATH=$wt /venv/bin/python -m pytest -q -p no:cacheprovider --timeout=900 tests 2>&1 | tail -1) | tee /tmp/confirm-$id-tests.log
 echo "base=$b mut=$m"
+echo "== worktree diff equals patch.diff?"; (cd $wt && git diff) | diff -q - $sd/patch.diff && echo same || echo "DIFFERENT (possible cross-contamination)"
